@@ -75,6 +75,11 @@ namespace nmtools::utl
             if (new_size <= Capacity) {
                 size_ = new_size;
             }
+            #ifdef NMTOOLS_VERIF
+            else {
+                NMTOOLS_VERIF_CAPACITY(new_size,Capacity,1);
+            }
+            #endif
         }
 
         constexpr static_vector& operator=(const static_vector& other)
@@ -90,6 +95,7 @@ namespace nmtools::utl
         constexpr void push_back(const T& t)
         {
             if (size_+1 > Capacity) {
+                NMTOOLS_VERIF_CAPACITY(size_+1,Capacity,2);
                 return;
             }
             resize(size_ + 1);
@@ -110,6 +116,7 @@ namespace nmtools::utl
         constexpr reference at(index_type i)
         {
             // TODO: assert/throw
+            NMTOOLS_VERIF_INDEX(i,size_,1);
             return buffer[i];
         }
 
@@ -117,6 +124,7 @@ namespace nmtools::utl
         constexpr const_reference at(index_type i) const
         {
             // TODO: assert/throw
+            NMTOOLS_VERIF_INDEX(i,size_,1);
             return buffer[i];
         }
 
@@ -128,12 +136,14 @@ namespace nmtools::utl
         nmtools_index_attribute
         constexpr reference operator[](index_type i) noexcept
         {
+            NMTOOLS_VERIF_INDEX(i,size_,1);
             return buffer[i];
         }
 
         nmtools_index_attribute
         constexpr const_reference operator[](index_type i) const noexcept
         {
+            NMTOOLS_VERIF_INDEX(i,size_,1);
             return buffer[i];
         }
 
